@@ -368,9 +368,17 @@ func main() {
 		os.Exit(3)
 	}
 
+	rej, _ := os.Create(filepath.Join(f.Out, "rejects.txt"))
+	defer rej.Close()
 	for i, p := range progs {
 		k := p.K
 		cr := res[i]
+		if cr.err != "" {
+			fmt.Fprintf(rej, "case %d neo: %s\n", k, cr.err)
+		}
+		if why, bad := dropped[k]; bad {
+			fmt.Fprintf(rej, "case %d go: %s\n", k, why)
+		}
 		o.Case(k)
 		o.Count("prog:" + p.Kind)
 		for ft, c := range p.Feat {
@@ -433,6 +441,10 @@ func main() {
 				case g.plain == "panic":
 					o.Count("tuple:MISMATCH")
 					o.Fail(key("go-panics-vm-returns"), k, "%s%v: go panics, VM %s", e.Name, t, v)
+				case v == "fault" && g.rtrec:
+					// Go recovered a run-time error; NeoVM FAULTs are not catchable
+					o.Count("tuple:MISMATCH")
+					o.Fail(key("recover-runtime-error"), k, "%s%v: go recovers a run-time error and returns %s, VM FAULT (%s)", e.Name, t, g.plain, cr.vmerr[tk])
 				case v == "fault":
 					o.Count("tuple:MISMATCH")
 					o.Fail(key("vm-faults-go-returns"), k, "%s%v: go %s, VM FAULT (%s)", e.Name, t, g.plain, cr.vmerr[tk])
